@@ -148,6 +148,80 @@ func suiteBridgeConn(e *vh.Env) {
 		}
 		done()
 	}
+	// several connections in one process, reads smaller than the messages, interleaved: what one connection has
+	// received but not yet handed to its reader must not be affected by traffic on another connection
+	rounds := e.N(40, 1500)
+	for r := 0; r < rounds; r++ {
+		if !e.Want(n + r) {
+			continue
+		}
+		rng := e.Rng.Sub(1<<20 + r)
+		k := 2 + rng.Intn(3)
+		type pr struct {
+			a, b      *connection.WebsocketNetConn
+			done      func()
+			sent, got []byte
+			pending   int
+		}
+		var ps []*pr
+		for j := 0; j < k; j++ {
+			a, b, done := wsPair()
+			ps = append(ps, &pr{a: a, b: b, done: done})
+		}
+		bad := false
+		for s := 0; s < 30+rng.Intn(60) && !bad; s++ {
+			p := ps[rng.Intn(k)]
+			if p.pending == 0 || rng.Chance(35) {
+				bs := rng.Bytes(50 + rng.Intn(900))
+				if _, err := p.a.Write(bs); err != nil {
+					e.Fail("C15:write-error", err.Error(), n+r, nil, nil, nil)
+					bad = true
+				}
+				p.sent = append(p.sent, bs...)
+				p.pending += len(bs)
+			} else {
+				buf := make([]byte, 1+rng.Intn(120))
+				c, err := p.b.Read(buf)
+				if err != nil {
+					e.Fail("C15:read-error", err.Error(), n+r, nil, nil, nil)
+					bad = true
+				}
+				p.got = append(p.got, buf[:c]...)
+				p.pending -= c
+			}
+		}
+		for j, p := range ps {
+			for p.pending > 0 && !bad {
+				buf := make([]byte, 1+rng.Intn(300))
+				c, err := p.b.Read(buf)
+				if err != nil {
+					e.Fail("C15:read-error", err.Error(), n+r, nil, nil, nil)
+					break
+				}
+				p.got = append(p.got, buf[:c]...)
+				p.pending -= c
+			}
+			if !bad && !bytes.Equal(p.sent, p.got) {
+				e.Fail("C15:stream-mismatch", fmt.Sprintf("round %d: %d connections with interleaved small reads; connection %d sent %d bytes, its reader received %d bytes, first difference at offset %d", r, k, j, len(p.sent), len(p.got), firstDiffDrv(p.sent, p.got)), n+r, nil, nil, nil)
+				bad = true
+			}
+			p.done()
+		}
+		e.Eval(fmt.Sprintf("interleaved-%d", r), true)
+		e.Count("interleaved-connections")
+	}
+}
+
+func firstDiffDrv(a, b []byte) int {
+	for i := 0; i < len(a) && i < len(b); i++ {
+		if a[i] != b[i] {
+			return i
+		}
+	}
+	if len(a) < len(b) {
+		return len(a)
+	}
+	return len(b)
 }
 
 func freePort() int {
